@@ -1,4 +1,12 @@
 import SqlVerif.Lemmas.TclDefs
+/-!
+Parse → print → parse fixpoint (C01) on `Model/Tcl.lean`, the statements that are not transaction
+statements: `DISCARD`, `DEALLOCATE`, `CLOSE`, `USE`, and the results of `parseSet` with `Stmt.fixKind`
+(`SET ROLE`, `SET NAMES DEFAULT`, `SET TRANSACTION` / `SET SESSION CHARACTERISTICS AS TRANSACTION`): parsing the
+printed tokens of an accepted statement gives `Stmt.norm`.  The printed lists are explicit, the parser is
+evaluated on them; keyword tests between closed tokens are `decide +kernel` facts (`mx_head_*`, `mx_set_kws`,
+`mx_set_names`).  The transaction-mode loop is taken as hypotheses `hmodes` / `htoks` (`Lemmas/TclFixTx.lean`).
+-/
 namespace SqlVerif.Tcl
 open SqlVerif.Pratt SqlVerif.Query SqlVerif.Dml SqlVerif.Ddl SqlVerif.Gen
 
@@ -142,5 +150,528 @@ theorem fixMisc_close (c : TCfg) (f d : Nat) (kw : Tok) (ts rest : List Tok) (s 
     by_cases ha : n.isKw TK.ALL = true
     · simp only [ha, if_true, kwP_tok, parseClose, mx_identElem_one (mx_ident_kwT "ALL")]
     · simp only [ha, Bool.false_eq_true, if_false, idPiece_tok, parseClose, mx_identElem_one hi]
+
+-- ------------------------------------------------------------------ USE
+theorem mx_eatKw_cons (t : Tok) (r : List Tok) (k : Nat) :
+    eatKw (t :: r) k = if t.isKw k then some (t, r) else none := by
+  cases h : t.isKw k <;> simp [eatKw, h]
+
+/-- `oneOfTail` found a keyword: on the printed keyword it finds it again -/
+theorem mx_oneOfTail_cons (ks : List Nat) : ∀ (ts : List Tok) (t : Tok) (l r r' : List Tok),
+    oneOfTail ks ts = (t :: l, r) → l = [] ∧ ts = t :: r ∧ oneOfTail ks (kwNormTok t :: r') = ([kwNormTok t], r') := by
+  induction ks with
+  | nil => intro ts t l r r' h; simp [oneOfTail] at h
+  | cons k ks ih =>
+    intro ts t l r r' h
+    unfold oneOfTail at h ⊢
+    split at h
+    · rename_i t0 r0 hk
+      obtain ⟨rfl, hk0⟩ := (eatKw_some_iff _ _ _ _).1 hk
+      simp at h; obtain ⟨⟨rfl, rfl⟩, rfl⟩ := h
+      simp [mx_eatKw_cons, kwNormTok_isKw, hk0]
+    · rename_i hk
+      obtain ⟨rfl, rfl, h3⟩ := ih ts t l r r' h
+      have hk0 : t.isKw k = false := by
+        cases hh : t.isKw k
+        · rfl
+        · simp [mx_eatKw_cons, hh] at hk
+      simp [mx_eatKw_cons, kwNormTok_isKw, hk0, h3]
+
+/-- `oneOfTail` found nothing: it finds nothing on a list with the same first keyword class -/
+theorem mx_oneOfTail_nil (ks : List Nat) : ∀ (ts r : List Tok) (ts' : List Tok),
+    oneOfTail ks ts = ([], r) → (∀ k, peekKw ts' k = peekKw ts k) → r = ts ∧ oneOfTail ks ts' = ([], ts') := by
+  induction ks with
+  | nil => intro ts r ts' h _; simp [oneOfTail] at h ⊢; exact h.symm
+  | cons k ks ih =>
+    intro ts r ts' h hp
+    unfold oneOfTail at h ⊢
+    split at h
+    · simp at h
+    · rename_i hk
+      obtain ⟨rfl, h3⟩ := ih ts r ts' h hp
+      have hk' : eatKw ts' k = none := by
+        have := hp k
+        cases ts' with
+        | nil => rfl
+        | cons a b =>
+          cases r with
+          | nil => simp [peekKw] at this; simp [mx_eatKw_cons, this]
+          | cons a0 b0 =>
+            simp only [peekKw] at this
+            cases hh : a0.isKw k
+            · simp [mx_eatKw_cons, this, hh]
+            · simp [mx_eatKw_cons, hh] at hk
+      simp [hk', h3]
+
+/-- a name read by `objectName` is read back whole -/
+theorem mx_objectName_reparse (acc ts : List Tok) : ∀ (name rest : List Tok), objectName acc ts = .ok (name, rest) →
+    ∃ nm, name = acc ++ nm ∧ ts = nm ++ rest ∧ nm ≠ [] ∧ ∀ acc', objectName acc' nm = .ok (acc' ++ nm, []) := by
+  fun_induction objectName acc ts with
+  | case1 acc => intro name rest h; simp at h
+  | case2 acc t hi rest' ih =>
+    intro name rest h
+    obtain ⟨nm, rfl, h2, -, h4⟩ := ih name rest h
+    refine ⟨t :: .sym .Period :: nm, by simp, by simp [h2], by simp, ?_⟩
+    intro acc'
+    rw [objectName]
+    simp only [hi, if_true]
+    rw [h4]; simp
+  | case3 acc t hi rest hne =>
+    intro name rest' h
+    simp at h; obtain ⟨rfl, rfl⟩ := h
+    refine ⟨[t], rfl, rfl, by simp, ?_⟩
+    intro acc'
+    simp [objectName, hi]
+  | case4 acc t rest hi => intro name rest' h; simp at h
+
+theorem mx_nameElem_reparse {ts name rest : List Tok} (h : nameElem ts = .ok (name, rest)) :
+    ts = name ++ rest ∧ name ≠ [] ∧ nameElem name = .ok (name, []) := by
+  obtain ⟨nm, h1, h2, h3, h4⟩ := mx_objectName_reparse [] ts name rest h
+  simp at h1; subst h1
+  exact ⟨h2, h3, by simpa [nameElem] using h4 []⟩
+
+theorem mx_peekKw_append {name : List Tok} (hn : name ≠ []) (a b : List Tok) (k : Nat) :
+    peekKw (name ++ a) k = peekKw (name ++ b) k := by
+  cases name with
+  | nil => exact absurd rfl hn
+  | cons x y => rfl
+
+theorem mx_default : (kwT "DEFAULT").isKw TK.DEFAULT = true := by decide +kernel
+
+theorem mx_useDefaultAhead_none (c : TCfg) (ts ts' : List Tok) (h : useDefaultAhead c ts = none)
+    (hp : ∀ k, peekKw ts' k = peekKw ts k) : useDefaultAhead c ts' = none := by
+  unfold useDefaultAhead at h ⊢
+  split
+  · rename_i hh
+    simp only [hh, if_true] at h
+    have := hp TK.DEFAULT
+    cases ts' with
+    | nil => rfl
+    | cons a b =>
+      cases ts with
+      | nil => simp [peekKw] at this; simp [mx_eatKw_cons, this]
+      | cons a0 b0 =>
+        simp only [peekKw] at this
+        cases hk : a0.isKw TK.DEFAULT
+        · simp [mx_eatKw_cons, this, hk]
+        · simp [mx_eatKw_cons, hk] at h
+  · rfl
+
+/-- the kind keyword is found again, and the name follows -/
+theorem mx_useKindTail_reparse (c : TCfg) (ts name rest : List Tok) (hn : name ≠ [])
+    (h2 : (useKindTail c ts).2 = name ++ rest) :
+    useKindTail c ((useKindTail c ts).1.map kwNormTok ++ name) = ((useKindTail c ts).1.map kwNormTok, name) ∧
+    ∀ k, peekKw ((useKindTail c ts).1.map kwNormTok ++ name) k = peekKw ts k := by
+  have key : ∀ ks, (oneOfTail ks ts).2 = name ++ rest →
+      oneOfTail ks ((oneOfTail ks ts).1.map kwNormTok ++ name) = ((oneOfTail ks ts).1.map kwNormTok, name) ∧
+      ∀ k, peekKw ((oneOfTail ks ts).1.map kwNormTok ++ name) k = peekKw ts k := by
+    intro ks h2
+    generalize hA : oneOfTail ks ts = A at h2
+    obtain ⟨l, r⟩ := A
+    simp only at h2; subst h2
+    cases l with
+    | nil =>
+      have h0 := mx_oneOfTail_nil ks ts _ (name ++ []) hA (by
+        intro k
+        have := (mx_oneOfTail_nil ks ts _ ts hA (fun _ => rfl)).1
+        rw [← this]; exact mx_peekKw_append hn _ _ k)
+      obtain ⟨h01, h02⟩ := h0
+      simp only [List.append_nil] at h02
+      refine ⟨by simpa using h02, ?_⟩
+      intro k
+      rw [← h01]
+      simpa using mx_peekKw_append hn [] rest k
+    | cons t l =>
+      obtain ⟨rfl, rfl, h3⟩ := mx_oneOfTail_cons ks ts t l _ name hA
+      refine ⟨by simpa using h3, ?_⟩
+      intro k
+      simp [peekKw, kwNormTok_isKw]
+  unfold useKindTail at h2 ⊢
+  split
+  · rename_i hd
+    simp only [hd, if_true] at h2 ⊢
+    exact key _ h2
+  · rename_i hd
+    simp only [hd, Bool.false_eq_true, if_false] at h2 ⊢
+    split
+    · rename_i hs
+      simp only [hs, if_true] at h2 ⊢
+      exact key _ h2
+    · rename_i hs
+      simp only [hs, Bool.false_eq_true, if_false] at h2 ⊢
+      subst h2
+      refine ⟨by simp, ?_⟩
+      intro k
+      simpa using mx_peekKw_append hn [] rest k
+
+theorem fixMisc_use (c : TCfg) (f d : Nat) (kw : Tok) (ts rest : List Tok) (s : Stmt)
+    (h : parseUse c kw ts = .ok (s, rest)) : parseStmt c f (d + 1) s.showToks = .ok (s.norm, []) := by
+  unfold parseUse at h
+  split at h
+  · rename_i dk r hd
+    simp at h; obtain ⟨rfl, rfl⟩ := h
+    simp only [Stmt.showToks, Stmt.pieces, List.map, kwP_tok, Stmt.norm, mx_dispatch_use]
+    have hh : c.x.d.isHive = true := by
+      unfold useDefaultAhead at hd
+      split at hd
+      · assumption
+      · simp at hd
+    simp only [parseUse, useDefaultAhead, hh, if_true, mx_eatKw_cons, mx_default]
+  · rename_i hd
+    split at h
+    · simp at h
+    · rename_i name r hn
+      split at h
+      · simp at h
+      · rename_i hbq
+        simp at h; obtain ⟨rfl, rfl⟩ := h
+        obtain ⟨h1, h2, h3⟩ := mx_nameElem_reparse hn
+        obtain ⟨k1, k2⟩ := mx_useKindTail_reparse c ts name r h2 h1
+        have hsh : (Stmt.useObj kw (useKindTail c ts).1 name).showToks =
+            kwT "USE" :: ((useKindTail c ts).1.map kwNormTok ++ name) := by
+          have := toksOf_namePieces name
+          simp only [toksOf] at this
+          simp only [Stmt.showToks, Stmt.pieces, List.map_append, List.map, kwP_tok, List.cons_append, List.nil_append,
+            List.map_map]
+          have hsp : List.map (fun x => x.tok) (spaced (namePieces name)) = name := by
+            have := Pratt.toksOf_spaced (namePieces name)
+            simp only [toksOf] at this
+            rw [this]; assumption
+          rw [hsp]
+          rfl
+        rw [hsh, mx_dispatch_use]
+        unfold parseUse
+        rw [mx_useDefaultAhead_none c ts _ hd k2]
+        simp only [k1, h3, hbq, Bool.false_eq_true, if_false, Stmt.norm]
+
+-- ------------------------------------------------------------------ SET: closed facts
+theorem mx_set_kws :
+    (kwT "SESSION").isKw TK.SESSION = true ∧ (kwT "SESSION").isKw TK.HIVEVAR = false ∧
+    (kwT "LOCAL").isKw TK.SESSION = false ∧ (kwT "LOCAL").isKw TK.LOCAL = true ∧ (kwT "LOCAL").isKw TK.HIVEVAR = false ∧
+    (kwT "ROLE").isKw TK.SESSION = false ∧ (kwT "ROLE").isKw TK.LOCAL = false ∧ (kwT "ROLE").isKw TK.HIVEVAR = false ∧
+    (kwT "ROLE").isKw TK.ROLE = true ∧
+    (kwT "TRANSACTION").isKw TK.SESSION = false ∧ (kwT "TRANSACTION").isKw TK.LOCAL = false ∧
+    (kwT "TRANSACTION").isKw TK.HIVEVAR = false ∧ (kwT "TRANSACTION").isKw TK.ROLE = false ∧
+    (kwT "TRANSACTION").isKw TK.TIME = false ∧ (kwT "TRANSACTION").isKw TK.TRANSACTION = true ∧
+    (kwT "AS").isKw TK.TO = false ∧ (kwT "AS").isKw TK.AS = true ∧
+    (kwT "READ").isKw TK.TO = false ∧ (kwT "READ").isKw TK.SNAPSHOT = false ∧
+    (kwT "ISOLATION").isKw TK.TO = false ∧ (kwT "ISOLATION").isKw TK.SNAPSHOT = false := by decide +kernel
+
+theorem mx_set_names :
+    nameIs "names" [plainW "NAMES"] = true ∧
+    nameIs "names" [kwT "TRANSACTION"] = false ∧ nameIs "timezone" [kwT "TRANSACTION"] = false ∧
+    nameIs "characteristics" [kwT "TRANSACTION"] = false ∧ nameIs "transaction" [kwT "TRANSACTION"] = true ∧
+    nameIs "names" [plainW "CHARACTERISTICS"] = false ∧ nameIs "timezone" [plainW "CHARACTERISTICS"] = false ∧
+    nameIs "characteristics" [plainW "CHARACTERISTICS"] = true ∧
+    bigQueryNameForeign [plainW "NAMES"] [] = false ∧ bigQueryNameForeign [kwT "TRANSACTION"] [] = false ∧
+    bigQueryNameForeign [plainW "CHARACTERISTICS"] [] = false := by decide +kernel
+
+theorem mx_plainW_isKw (n : String) (k : Nat) : (plainW n).isKw k = false := rfl
+theorem mx_plainW_isSym (n : String) (s : Sym) : (plainW n).isSym s = false := rfl
+theorem mx_kwT_isSym (n : String) (s : Sym) : (kwT n).isSym s = false := rfl
+theorem mx_plainW_ident (n : String) : isIdentTok (plainW n) = true := rfl
+theorem mx_kwT_ne_period (n : String) : kwT n ≠ .sym .Period := by intro h; cases h
+
+theorem mx_eatSym_cons (t : Tok) (r : List Tok) (s : Sym) :
+    eatSym (t :: r) s = if t.isSym s then some (t, r) else none := by
+  cases h : t.isSym s <;> simp [eatSym, h]
+
+-- ------------------------------------------------------------------ SET: the modifier
+theorem mx_oneOfTail_hit (k : Nat) (ks : List Nat) (t : Tok) (r : List Tok) (h : t.isKw k = true) :
+    oneOfTail (k :: ks) (t :: r) = ([t], r) := by
+  simp [oneOfTail, eatKw, h]
+
+theorem mx_oneOfTail_skip (k : Nat) (ks : List Nat) (t : Tok) (r : List Tok) (h : t.isKw k = false) :
+    oneOfTail (k :: ks) (t :: r) = oneOfTail ks (t :: r) := by
+  simp [oneOfTail, eatKw, h]
+
+theorem mx_md_session (r : List Tok) :
+    oneOfTail [TK.SESSION, TK.LOCAL, TK.HIVEVAR] (kwT "SESSION" :: r) = ([kwT "SESSION"], r) :=
+  mx_oneOfTail_hit _ _ _ _ mx_set_kws.1
+
+theorem mx_md_local (r : List Tok) :
+    oneOfTail [TK.SESSION, TK.LOCAL, TK.HIVEVAR] (kwT "LOCAL" :: r) = ([kwT "LOCAL"], r) := by
+  rw [mx_oneOfTail_skip _ _ _ _ mx_set_kws.2.2.1]
+  exact mx_oneOfTail_hit _ _ _ _ mx_set_kws.2.2.2.1
+
+theorem mx_md_none (t : Tok) (r : List Tok) (h1 : t.isKw TK.SESSION = false) (h2 : t.isKw TK.LOCAL = false)
+    (h3 : t.isKw TK.HIVEVAR = false) : oneOfTail [TK.SESSION, TK.LOCAL, TK.HIVEVAR] (t :: r) = ([], t :: r) := by
+  rw [mx_oneOfTail_skip _ _ _ _ h1, mx_oneOfTail_skip _ _ _ _ h2, mx_oneOfTail_skip _ _ _ _ h3]
+  rfl
+
+theorem mx_hivevar_nil : isHivevar [] = false := rfl
+theorem mx_hivevar_session : isHivevar [kwT "SESSION"] = false := by
+  simp only [isHivevar, List.any_cons, List.any_nil, mx_set_kws, Bool.or_false]
+theorem mx_hivevar_local : isHivevar [kwT "LOCAL"] = false := by
+  simp only [isHivevar, List.any_cons, List.any_nil, mx_set_kws, Bool.or_false]
+
+theorem mx_ctxPieces (md : List Tok) : (ctxPieces md).map (·.tok) = ctxNorm md := by
+  unfold ctxPieces ctxNorm
+  split
+  · rfl
+  · split <;> rfl
+
+/-- the printed modifier is one of three closed lists, each read back by `oneOfTail` -/
+theorem mx_ctxNorm_cases (md : List Tok) : ctxNorm md = [] ∨ ctxNorm md = [kwT "SESSION"] ∨ ctxNorm md = [kwT "LOCAL"] := by
+  unfold ctxNorm
+  split
+  · exact Or.inr (Or.inr rfl)
+  · split
+    · exact Or.inr (Or.inl rfl)
+    · exact Or.inl rfl
+
+-- ------------------------------------------------------------------ SET ROLE
+theorem mx_set_role_eval (c : TCfg) (f d : Nat) (md' : List Tok) (x : Tok)
+    (hmd : oneOfTail [TK.SESSION, TK.LOCAL, TK.HIVEVAR] (md' ++ [kwT "ROLE", x]) = (md', [kwT "ROLE", x]))
+    (hh : isHivevar md' = false) (hx : isIdentTok x = true) :
+    parseSet c f d (kwT "SET") (md' ++ [kwT "ROLE", x]) = .ok (.setRole (kwT "SET") md' (kwT "ROLE") x, []) := by
+  unfold parseSet
+  rw [hmd]
+  simp only [parseSetTail, roleAhead, hh, Bool.false_eq_true, if_false, mx_eatKw_cons, mx_set_kws, if_true, parseSetRole,
+    mx_identElem_one hx]
+
+theorem fixMisc_setRole (c : TCfg) (f d : Nat) (kw : Tok) (md : List Tok) (rk : Tok) (ts rest : List Tok) (s : Stmt)
+    (h : parseSetRole kw md rk ts = .ok (s, rest)) : parseStmt c f (d + 1) s.showToks = .ok (s.norm, []) := by
+  unfold parseSetRole at h
+  split at h
+  · simp at h
+  · rename_i n r hn
+    simp at h; obtain ⟨rfl, rfl⟩ := h
+    obtain ⟨-, hi⟩ := mx_identElem_some hn
+    have hx : isIdentTok (if n.isKw TK.NONE then kwT "NONE" else n) = true := by
+      split
+      · rfl
+      · exact hi
+    have hsh : (Stmt.setRole kw md rk n).showToks =
+        kwT "SET" :: (ctxNorm md ++ [kwT "ROLE", if n.isKw TK.NONE then kwT "NONE" else n]) := by
+      simp only [Stmt.showToks, Stmt.pieces, List.map_append, List.map, kwP_tok, List.cons_append, List.nil_append,
+        mx_ctxPieces]
+      split
+      · rfl
+      · rw [idPiece_tok]
+    rw [hsh, mx_dispatch_set]
+    simp only [Stmt.norm]
+    rcases mx_ctxNorm_cases md with h0 | h0 | h0 <;> rw [h0]
+    · exact mx_set_role_eval c f d [] _
+        (mx_md_none _ _ mx_set_kws.2.2.2.2.2.1 mx_set_kws.2.2.2.2.2.2.1 mx_set_kws.2.2.2.2.2.2.2.1) mx_hivevar_nil hx
+    · exact mx_set_role_eval c f d [kwT "SESSION"] _ (mx_md_session _) mx_hivevar_session hx
+    · exact mx_set_role_eval c f d [kwT "LOCAL"] _ (mx_md_local _) mx_hivevar_local hx
+
+-- ------------------------------------------------------------------ SET: the variable path
+theorem mx_objectName_one (acc : List Tok) (w u : Tok) (r : List Tok) (hw : isIdentTok w = true) (hu : u ≠ .sym .Period) :
+    objectName acc (w :: u :: r) = .ok (acc ++ [w], u :: r) := by
+  rw [objectName]
+  · simp only [hw, if_true]
+  · intro rest' heq
+    simp only [List.cons.injEq] at heq
+    exact hu heq.1
+
+theorem mx_objectName_last (acc : List Tok) (w : Tok) (hw : isIdentTok w = true) :
+    objectName acc [w] = .ok (acc ++ [w], []) := by
+  simp [objectName, hw]
+
+theorem mx_setTarget_word (c : TCfg) (f : Nat) (w : Tok) (r : List Tok) (h1 : w.isKw TK.TIME = false)
+    (h2 : w.isSym .LParen = false) (h3 : nameElem (w :: r) = .ok ([w], r)) (h4 : bigQueryNameForeign [w] [] = false) :
+    setTarget c f (w :: r) = .ok (.one [w], r) := by
+  have hp : (if c.parenSet then eatSym (w :: r) .LParen else none) = none := by
+    cases c.parenSet <;> simp [mx_eatSym_cons, h2]
+  unfold setTarget
+  simp only [eatKws, mx_eatKw_cons, h1, Bool.false_eq_true, if_false]
+  rw [hp]
+  simp only [h3, bqDotted, h4, Bool.and_false, Bool.false_eq_true, if_false]
+
+theorem mx_set_var_eval (c : TCfg) (f d : Nat) (md' : List Tok) (w : Tok) (r : List Tok)
+    (hmd : oneOfTail [TK.SESSION, TK.LOCAL, TK.HIVEVAR] (md' ++ w :: r) = (md', w :: r))
+    (hh : isHivevar md' = false) (hw : w.isKw TK.ROLE = false) :
+    parseSet c f d (kwT "SET") (md' ++ w :: r) = parseSetVar c f d (kwT "SET") md' [] (w :: r) := by
+  unfold parseSet
+  rw [hmd]
+  simp only [parseSetTail, roleAhead, hivevarColon, hh, Bool.false_eq_true, if_false, mx_eatKw_cons, hw]
+
+-- ------------------------------------------------------------------ SET NAMES DEFAULT
+theorem fixMisc_setNamesDefault (c : TCfg) (f d : Nat) (kw : Tok) (md colon name : List Tok) (dk : Tok)
+    (hd : (c.x.d.isMySql || c.x.d.isGeneric) = true) :
+    parseStmt c f (d + 1) (Stmt.setNamesDefault kw md colon name dk).showToks =
+      .ok ((Stmt.setNamesDefault kw md colon name dk).norm, []) := by
+  have hsh : (Stmt.setNamesDefault kw md colon name dk).showToks = [kwT "SET", plainW "NAMES", kwT "DEFAULT"] := rfl
+  rw [hsh, mx_dispatch_set]
+  have h0 := mx_set_var_eval c f d [] (plainW "NAMES") [kwT "DEFAULT"]
+    (mx_md_none _ _ (mx_plainW_isKw _ _) (mx_plainW_isKw _ _) (mx_plainW_isKw _ _)) mx_hivevar_nil (mx_plainW_isKw _ _)
+  simp only [List.nil_append] at h0
+  rw [h0]
+  have ht := mx_setTarget_word c f (plainW "NAMES") [kwT "DEFAULT"] (mx_plainW_isKw _ _) (mx_plainW_isSym _ _)
+    (by simpa [nameElem] using mx_objectName_one [] (plainW "NAMES") (kwT "DEFAULT") [] (mx_plainW_ident _) (mx_kwT_ne_period _))
+    mx_set_names.2.2.2.2.2.2.2.2.1
+  unfold parseSetVar
+  rw [ht]
+  simp only [namesBranch, mx_set_names, hd, Bool.and_self, if_true, parseSetNames, mx_eatKw_cons, mx_default,
+    SetTarget.toks, Stmt.norm]
+
+-- ------------------------------------------------------------------ SET TRANSACTION
+/-- the printed modes are nothing, or begin with `READ` / `ISOLATION` -/
+theorem mx_modes_head (ms : Sep TMode) :
+    sepFlat TMode.flatten (sepNorm TMode.norm ms) = [] ∨
+    ∃ M', sepFlat TMode.flatten (sepNorm TMode.norm ms) = kwT "READ" :: M' ∨
+      sepFlat TMode.flatten (sepNorm TMode.norm ms) = kwT "ISOLATION" :: M' := by
+  cases ms with
+  | nil => exact Or.inl rfl
+  | cons p rest =>
+    right
+    obtain ⟨m, sp⟩ := p
+    cases rest with
+    | nil => cases m <;> first | exact ⟨_, Or.inl rfl⟩ | exact ⟨_, Or.inr rfl⟩
+    | cons q rest => cases m <;> first | exact ⟨_, Or.inl rfl⟩ | exact ⟨_, Or.inr rfl⟩
+
+/-- what the re-parse needs of the token that follows the variable -/
+theorem mx_modes_after (ms : Sep TMode) (acc : List Tok) (w : Tok) (hw : isIdentTok w = true) :
+    objectName acc (w :: sepFlat TMode.flatten (sepNorm TMode.norm ms)) =
+      .ok (acc ++ [w], sepFlat TMode.flatten (sepNorm TMode.norm ms)) ∧
+    eqOrTo (sepFlat TMode.flatten (sepNorm TMode.norm ms)) = none ∧
+    peekKw (sepFlat TMode.flatten (sepNorm TMode.norm ms)) TK.SNAPSHOT = false := by
+  rcases mx_modes_head ms with h | ⟨M', h | h⟩ <;> rw [h]
+  · exact ⟨mx_objectName_last acc w hw, rfl, rfl⟩
+  · refine ⟨mx_objectName_one acc w _ _ hw (mx_kwT_ne_period _), ?_, ?_⟩
+    · simp only [eqOrTo, mx_eatSym_cons, mx_kwT_isSym, Bool.false_eq_true, if_false, mx_eatKw_cons, mx_set_kws]
+    · simp only [peekKw, mx_set_kws]
+  · refine ⟨mx_objectName_one acc w _ _ hw (mx_kwT_ne_period _), ?_, ?_⟩
+    · simp only [eqOrTo, mx_eatSym_cons, mx_kwT_isSym, Bool.false_eq_true, if_false, mx_eatKw_cons, mx_set_kws]
+    · simp only [peekKw, mx_set_kws]
+
+theorem fixMisc_setTx (c : TCfg) (f d : Nat)
+    (htoks : ∀ ms : Sep TMode, toksOf (modesPieces ms) = sepFlat TMode.flatten (sepNorm TMode.norm ms))
+    (kw : Tok) (md colon head : List Tok) (session : Bool) (ms : Sep TMode)
+    (hm : modesLoop f false (sepFlat TMode.flatten (sepNorm TMode.norm ms)) = .ok (sepNorm TMode.norm ms, [])) :
+    parseStmt c f (d + 1) (Stmt.setTx kw md colon head session ms).showToks =
+      .ok ((Stmt.setTx kw md colon head session ms).norm, []) := by
+  have hM := htoks ms
+  simp only [toksOf] at hM
+  cases session with
+  | false =>
+    have hsh : (Stmt.setTx kw md colon head false ms).showToks =
+        kwT "SET" :: kwT "TRANSACTION" :: sepFlat TMode.flatten (sepNorm TMode.norm ms) := by
+      simp only [Stmt.showToks, Stmt.pieces, setTxPieces, Bool.false_eq_true, if_false, List.map, kwP_tok,
+        List.cons_append, List.nil_append, hM]
+    rw [hsh, mx_dispatch_set]
+    obtain ⟨a1, a2, a3⟩ := mx_modes_after ms [] (kwT "TRANSACTION") (mx_ident_kwT _)
+    have h0 := mx_set_var_eval c f d [] (kwT "TRANSACTION") (sepFlat TMode.flatten (sepNorm TMode.norm ms))
+      (mx_md_none _ _ mx_set_kws.2.2.2.2.2.2.2.2.2.1 mx_set_kws.2.2.2.2.2.2.2.2.2.2.1 mx_set_kws.2.2.2.2.2.2.2.2.2.2.2.1)
+      mx_hivevar_nil mx_set_kws.2.2.2.2.2.2.2.2.2.2.2.2.1
+    simp only [List.nil_append] at h0
+    rw [h0]
+    have ht := mx_setTarget_word c f (kwT "TRANSACTION") (sepFlat TMode.flatten (sepNorm TMode.norm ms))
+      mx_set_kws.2.2.2.2.2.2.2.2.2.2.2.2.2.1 (mx_kwT_isSym _ _) (by simpa [nameElem] using a1)
+      mx_set_names.2.2.2.2.2.2.2.2.2.1
+    unfold parseSetVar
+    rw [ht]
+    simp only [namesBranch, mx_set_names, Bool.false_and, Bool.false_eq_true, if_false, a2, parseSetOther,
+      SetTarget.isMany, SetTarget.isVar, List.isEmpty_nil, Bool.and_self, if_true, parseSetTransaction, a3, parseModes, hm,
+      SetTarget.toks, Stmt.norm]
+  | true =>
+    have hsh : (Stmt.setTx kw md colon head true ms).showToks =
+        kwT "SET" :: kwT "SESSION" :: plainW "CHARACTERISTICS" :: kwT "AS" :: kwT "TRANSACTION" ::
+          sepFlat TMode.flatten (sepNorm TMode.norm ms) := by
+      simp only [Stmt.showToks, Stmt.pieces, setTxPieces, if_true, List.map, kwP_tok,
+        List.cons_append, List.nil_append, hM]
+      rfl
+    rw [hsh, mx_dispatch_set]
+    have h0 := mx_set_var_eval c f d [kwT "SESSION"] (plainW "CHARACTERISTICS")
+      (kwT "AS" :: kwT "TRANSACTION" :: sepFlat TMode.flatten (sepNorm TMode.norm ms))
+      (mx_md_session _) mx_hivevar_session (mx_plainW_isKw _ _)
+    simp only [List.cons_append, List.nil_append] at h0
+    rw [h0]
+    have hn := mx_objectName_one [] (plainW "CHARACTERISTICS") (kwT "AS")
+      (kwT "TRANSACTION" :: sepFlat TMode.flatten (sepNorm TMode.norm ms)) (mx_plainW_ident _) (mx_kwT_ne_period _)
+    have ht := mx_setTarget_word c f (plainW "CHARACTERISTICS")
+      (kwT "AS" :: kwT "TRANSACTION" :: sepFlat TMode.flatten (sepNorm TMode.norm ms))
+      (mx_plainW_isKw _ _) (mx_plainW_isSym _ _) (by simpa [nameElem] using hn) mx_set_names.2.2.2.2.2.2.2.2.2.2
+    unfold parseSetVar
+    rw [ht]
+    simp only [namesBranch, mx_set_names, Bool.false_and, Bool.false_eq_true, if_false, eqOrTo, mx_eatSym_cons,
+      mx_kwT_isSym, mx_eatKw_cons, mx_set_kws, parseSetOther, SetTarget.isMany, SetTarget.isVar, if_true,
+      parseSetCharacteristics, eatKws, parseModes, hm, SetTarget.toks, Stmt.norm, List.cons_append, List.nil_append]
+
+-- ------------------------------------------------------------------ SET: all results with `fixKind`
+/-- `hmodes` / `htoks` are proved by the sibling file (`Lemmas/TclFixTx.lean`) -/
+theorem fixMisc_set (c : TCfg) (f d : Nat) (kw : Tok) (ts rest : List Tok) (s : Stmt)
+    (hmodes : ∀ (n : Nat) (req : Bool) (ts : List Tok) (ms : Sep TMode) (rest : List Tok),
+      modesLoop n req ts = .ok (ms, rest) →
+        modesLoop n false (sepFlat TMode.flatten (sepNorm TMode.norm ms)) = .ok (sepNorm TMode.norm ms, []))
+    (htoks : ∀ ms : Sep TMode, toksOf (modesPieces ms) = sepFlat TMode.flatten (sepNorm TMode.norm ms))
+    (h : parseSet c f d kw ts = .ok (s, rest)) (hk : s.fixKind = true) :
+    parseStmt c f (d + 1) s.showToks = .ok (s.norm, []) := by
+  unfold parseSet parseSetTail at h
+  generalize (oneOfTail [TK.SESSION, TK.LOCAL, TK.HIVEVAR] ts).1 = md at h
+  generalize (oneOfTail [TK.SESSION, TK.LOCAL, TK.HIVEVAR] ts).2 = ts1 at h
+  split at h
+  · exact fixMisc_setRole c f d _ _ _ _ _ _ h
+  · split at h
+    · simp at h
+    · rename_i colon r hc
+      unfold parseSetVar at h
+      split at h
+      · simp at h
+      · rename_i tg r1 htg
+        split at h
+        · rename_i hnb
+          have hd : (c.x.d.isMySql || c.x.d.isGeneric) = true := by
+            unfold namesBranch at hnb
+            simp only [Bool.and_eq_true] at hnb
+            exact hnb.2
+          unfold parseSetNames at h
+          split at h
+          · simp at h; obtain ⟨rfl, rfl⟩ := h
+            exact fixMisc_setNamesDefault c f d _ _ _ _ _ hd
+          · split at h
+            · simp at h
+            · split at h
+              · simp at h
+              · simp at h; obtain ⟨rfl, rfl⟩ := h
+                simp [Stmt.fixKind] at hk
+        · split at h
+          · unfold parseSetValues at h
+            split at h
+            · simp at h
+            · split at h
+              · simp at h
+              · split at h
+                · simp at h
+                · simp at h; obtain ⟨rfl, rfl⟩ := h
+                  simp [Stmt.fixKind] at hk
+          · unfold parseSetOther at h
+            split at h
+            · simp at h
+            · split at h
+              · split at h
+                · simp at h
+                · simp at h; obtain ⟨rfl, rfl⟩ := h
+                  simp [Stmt.fixKind] at hk
+              · split at h
+                · unfold parseSetCharacteristics at h
+                  split at h
+                  · simp at h
+                  · split at h
+                    · simp at h
+                    · rename_i ms r2 hm
+                      simp at h; obtain ⟨rfl, rfl⟩ := h
+                      exact fixMisc_setTx c f d htoks _ _ _ _ _ _ (hmodes _ _ _ _ _ hm)
+                · split at h
+                  · unfold parseSetTransaction at h
+                    split at h
+                    · simp at h
+                    · split at h
+                      · simp at h
+                      · rename_i ms r2 hm
+                        simp at h; obtain ⟨rfl, rfl⟩ := h
+                        exact fixMisc_setTx c f d htoks _ _ _ _ _ _ (hmodes _ _ _ _ _ hm)
+                  · simp at h
+
+-- non-vacuity: accepted inputs of each of the five parsers
+example : parseDiscard (kwT "DISCARD") [kwT "TEMPORARY"] = .ok (.discard (kwT "DISCARD") (kwT "TEMPORARY"), []) := by
+  decide +kernel
+example : parseDeallocate (kwT "DEALLOCATE") [kwT "PREPARE", plainW "p"] =
+    .ok (.deallocate (kwT "DEALLOCATE") [kwT "PREPARE"] (plainW "p"), []) := by decide +kernel
+example : parseClose (kwT "CLOSE") [kwT "ALL"] = .ok (.close (kwT "CLOSE") (kwT "ALL"), []) := by decide +kernel
+example : parseSetRole (kwT "SET") [kwT "LOCAL"] (kwT "ROLE") [kwT "NONE"] =
+    .ok (.setRole (kwT "SET") [kwT "LOCAL"] (kwT "ROLE") (kwT "NONE"), []) := by decide +kernel
 
 end SqlVerif.Tcl
